@@ -68,7 +68,7 @@ Variable ecrecover : bytes -> bytes -> option bytes.
 
 (* ------------------------------------------------------------------ one iteration of the generated loop *)
 Lemma body_step D G H i last off : 0 <= i <= 2 ^ 32 -> 0 <= off <= 2 ^ 32 ->
-  ral_parseAndVerifyVAA_loop1_body ecrecover (RB D) (RB G) (RB H) [RZ i; RZ last; RZ off] =
+  ral_parseAndVerifyVAA_loop1_body keccak ecrecover (RB D) (RB G) (RB H) [RZ i; RZ last; RZ off] =
   match slice D (Z.to_nat off) (Z.to_nat off + 1), slice D (Z.to_nat off + 1) (Z.to_nat off + 66) with
   | Some gi, Some sg =>
     if rec_ok ecrecover H G last (unbe gi) sg then Some ([RZ (i + 1); RZ (unbe gi); RZ (off + 66)], []) else None
@@ -122,10 +122,10 @@ Fixpoint sig_loop (D G H : bytes) (n off : nat) (last : Z) : bool :=
 Lemma loop_eq D G H n : 0 <= n <= 2 ^ 20 ->
   forall k fuel i last off, (k <= fuel)%nat -> i + Z.of_nat k = n -> 0 <= i -> 0 <= off -> off + 66 * Z.of_nat k <= 2 ^ 31 ->
   (sig_loop D G H k (Z.to_nat off) last = true ->
-     exists a b, r_for fuel (ral_parseAndVerifyVAA_loop1_cond (RZ n)) (ral_parseAndVerifyVAA_loop1_body ecrecover (RB D) (RB G) (RB H))
+     exists a b, r_for fuel (ral_parseAndVerifyVAA_loop1_cond keccak ecrecover (RZ n)) (ral_parseAndVerifyVAA_loop1_body keccak ecrecover (RB D) (RB G) (RB H))
                    [RZ i; RZ last; RZ off] = Some ([RZ n; a; b], [])) /\
   (sig_loop D G H k (Z.to_nat off) last = false ->
-     r_for fuel (ral_parseAndVerifyVAA_loop1_cond (RZ n)) (ral_parseAndVerifyVAA_loop1_body ecrecover (RB D) (RB G) (RB H))
+     r_for fuel (ral_parseAndVerifyVAA_loop1_cond keccak ecrecover (RZ n)) (ral_parseAndVerifyVAA_loop1_body keccak ecrecover (RB D) (RB G) (RB H))
        [RZ i; RZ last; RZ off] = None).
 Proof.
   intros Hn. induction k as [|k IH]; intros fuel i last off Hf Hi Hi0 Ho Hb.
@@ -155,7 +155,7 @@ Qed.
 
 (* ------------------------------------------------------------------ getGuardiansInfo *)
 Lemma getGuardiansInfo_eq s idx :
-  ral_getGuardiansInfo (RZ idx) (RZ (gs_cur_idx s)) (RB (gs_cur s)) (RZ (gs_prev_idx s)) (RZ (gs_now s)) (RZ (gs_prev_exp s)) (RB (gs_prev s))
+  ral_getGuardiansInfo keccak ecrecover (RZ idx) (RZ (gs_cur_idx s)) (RB (gs_cur s)) (RZ (gs_prev_idx s)) (RZ (gs_now s)) (RZ (gs_prev_exp s)) (RB (gs_prev s))
   = match guardians_for s idx with Some g => Some ([RB g], []) | None => None end.
 Proof.
   unfold ral_getGuardiansInfo, guardians_for, r_var. cbn [r_eq rif].
@@ -181,7 +181,7 @@ Ltac rhs_parse :=
 Theorem ral_source_eq s gov data :
   ral_source keccak ecrecover s gov data = option_map rets_of (ral_accepts keccak ecrecover s gov data).
 Proof.
-  unfold ral_source, ral_source_full, ral_accepts, ral_parse, ral_parseAndVerifyVAA, sl.
+  unfold ral_source, ral_source_full, ral_accepts, ral_parse, ral_parseAndVerifyVAA_on, ral_parseAndVerifyVAA, sl.
   unfold ral_version_slice, ral_gsidx_slice, ral_numsigs_slice, ral_version_byte, c_Version, r_hex.
   unfold ral_body_from, ral_sig_offset0, ral_echain_slice, ral_tchain_slice, ral_eaddr_slice, ral_seq_slice, ral_payload_from. cbn [fst snd].
   unfold r_var, r_num. rewrite !r_slice_val.
